@@ -242,6 +242,15 @@ def run_complex(spec, res):
            for _ in range(nw)]
     entries.append({"id": "W", "start": 401, "residues": wat})
     items, truth = S.assemble(entries)
+    if spec["seed"] % 3 == 1:
+        # a ligand block pasted in with its own numbering (restarting at 1, or all zero): serial numbers are labels
+        mode = rng.choice(["restart", "zero"])
+        k = 0
+        for it in items:
+            if isinstance(it, dict) and it["resn"] == lig_resn:
+                k += 1
+                it["serial"] = k if mode == "restart" else 0
+        res.count("complex_ligand_serials_repeat")
     if variant == "ligaltloc":
         # the ligand (and a few protein atoms) carry alternate locations A/B: the first one counts, once
         out_items = []
